@@ -114,9 +114,11 @@ def run(ctx):
     # design-level counterexamples that the hangup / fault cases realise on the real proxy
     ctx.tlc("ProxyAdd.tla", "ProxyAdd_coded.cfg", timeout=600, workers=2)
     for cfg, inv in (("ProxyAdd_reqctx.cfg", "PinFalseHonoured"), ("ProxyAdd_unpinerr.cfg", "ErrorMeansNoOp")):
-        r = ctx.tlc("ProxyAdd.tla", cfg, timeout=600, workers=1, count=False, expect_violation=True)
-        if inv not in (r.violation or ""):
+        r = tla.run_tlc(ctx.specdir(), "ProxyAdd.tla", cfg, workers=1, timeout=600)
+        if r.timed_out or inv not in (r.violation or ""):
             raise vcheck.Infra("ProxyAdd/%s: expected the design-level counterexample to %s" % (cfg, inv))
+        ctx.log("tlc ProxyAdd.tla/%s: design-level counterexample to %s found, as expected (%d states)" % (
+            cfg, inv, r.distinct))
     ctx.exhaustive = True
     reqs = [json.loads(l) for l in open(cases_file)]
     ctx.extra["request_classes_enumerated_by_tlc"] = len(reqs)
